@@ -1280,3 +1280,117 @@ class _MetaRoundTrip(Contract):
 
 for _k in ('with-reference-paths', 'without-reference-paths'):
     register(type(f'MetaRoundTrip_{_k.replace("-", "_")}', (_MetaRoundTrip,), dict(kind=_k, __doc__=_MetaRoundTrip.__doc__)))
+
+
+# ----------------------------------------------------------------------------
+# circRNA files: the reader loop and the writer
+# ----------------------------------------------------------------------------
+@register
+class IterateCirc(Contract):
+    """circ.io.parse(handle) yields line_to_circ_model(line) for exactly the lines that do not start with '#', each once, in file order"""
+    path, qualname, props = CIO, 'parse', ('C13', 'C17')
+
+    def setup(self, I):
+        e = I.e
+        st = types.SimpleNamespace(yielded=[])
+        st.n = e.int('n_lines')
+        e.assume(st.n >= 0)
+        st.comment = z3.Function('line_is_a_comment', I_, B_)
+        zz = lambda i: i if is_z3(i) else z3.IntVal(i)
+        st.args = [FnView(st.n, lambda i: _GvfLine(self, zz(i)), tag='lines of the file')]
+        self._cur = st
+        return st
+
+    @property
+    def models(self):
+        c = self
+
+        def inst(reg):
+            reg.func_(CIO, 'line_to_circ_model', lambda I, a, k: SymObj('ParsedCirc13', of=a[0].i) if isinstance(a[0], _GvfLine) else I.raise_('TypeError', 'not a line'))
+            reg.on_yield = lambda I, frame, v: c._cur.yielded.append(v)
+        return (inst,)
+
+    def head(self, I, env, k):
+        self._cur.mark = len(self._cur.yielded)
+
+    def step(self, I, env, k):
+        st = self._cur
+        new = st.yielded[st.mark:]
+        if not new:
+            return [('a-line-is-passed-over-only-as-a-comment', st.comment(k))]
+        ok = len(new) == 1 and isinstance(new[0], SymObj) and new[0].cls == 'ParsedCirc13'
+        return [('one-record-per-record-line-parsed-from-that-line', z3.And(z3.Not(st.comment(k)), new[0].fields['of'] == k) if ok else False)]
+
+    @property
+    def loops(self):
+        return {0: LoopSpec(inv=lambda I, env, k: [], on_head=self.head, step=self.step, target_after='unknown',
+                            on_break=lambda I, env, k: [('every-line-is-visited', False)],
+                            on_exit=lambda I, env, n: [('all-lines-were-visited', n == self._cur.n)])}
+
+
+@register
+class WriteCirc(Contract):
+    """circ.io.write(records, metadata, handle): the circRNA kind is reported to the metadata before its lines are asked for; the handle receives the
+    metadata lines (each with a line break), then the column header starting with '#', then one line per record - its own to_string() plus a line
+    break - in the order given, and nothing else"""
+    path, qualname, props = CIO, 'write', ('C13', 'C17')
+    assumptions = ('assumed: GVFMetadata.to_strings yields comment lines (under its own round-trip contract)',)
+
+    def setup(self, I):
+        e = I.e
+        st = types.SimpleNamespace(log=[])
+        st.n = e.int('n_records')
+        st.nmeta = e.int('n_metadata_lines')
+        e.assume(z3.And(st.n >= 0, st.nmeta >= 0))
+        zz = lambda i: i if is_z3(i) else z3.IntVal(i)
+        st.records = FnView(st.n, lambda i: SymObj('Circ13w', i=zz(i)), tag='records')
+        st.meta = SymObj('GVFMetadata13c')
+        st.args = [st.records, st.meta, _OutFile13(self, 'out')]
+        self._cur = st
+        return st
+
+    @property
+    def models(self):
+        c = self
+
+        def inst(reg):
+            sstr.install(reg)
+            reg.method_('Circ13w', 'to_string', lambda I, o, a, k: SymObj('LineOf13c', i=o.fields['i']))
+            reg.method_('GVFMetadata13c', 'add_info', lambda I, o, a, k: c._cur.log.append(('add_info', None, a[0])))
+            reg.method_('GVFMetadata13c', 'to_strings', lambda I, o, a, k: (c._cur.log.append(('to_strings', None, None)),
+                                                                             FnView(c._cur.nmeta, lambda j: SymObj('MetaLine13c', j=j if is_z3(j) else z3.IntVal(j)), tag='metadata lines'))[1])
+        return (inst,)
+
+    def head(self, I, env, k):
+        self._cur.mark = len(self._cur.log)
+
+    def step_meta(self, I, env, k):
+        st = self._cur
+        w = [x for x in st.log[st.mark:] if x[0] == 'write']
+        ln = WriteGvf.line_of(w[0][2], 'MetaLine13c') if len(w) == 1 and w[0][1] == 'out' and len(st.log[st.mark:]) == 1 else None
+        return [('metadata-line-k-written-once-with-a-line-break', ln.fields['j'] == k if ln is not None else False)]
+
+    def step_rec(self, I, env, k):
+        st = self._cur
+        w = [x for x in st.log[st.mark:] if x[0] == 'write']
+        ln = WriteGvf.line_of(w[0][2], 'LineOf13c') if len(w) == 1 and w[0][1] == 'out' and len(st.log[st.mark:]) == 1 else None
+        return [('record-k-written-once-as-its-own-line-with-a-line-break', ln.fields['i'] == k if ln is not None else False)]
+
+    @property
+    def loops(self):
+        mk = lambda step, n: LoopSpec(inv=lambda I, env, k: [], on_head=self.head, step=step, target_after='unknown',
+                                      on_break=lambda I, env, k: [('every-element-is-visited', False)],
+                                      on_exit=lambda I, env, m: [('all-elements-were-visited', m == n())])
+        return {0: mk(self.step_meta, lambda: self._cur.nmeta), 1: mk(self.step_rec, lambda: self._cur.n)}
+
+    def post_return(self, I, st, ret):
+        e = I.e
+        # outside the two loops: add_info('circRNA'), to_strings, the column header - in this order, nothing else
+        kinds = [(x[0], x[2]) for x in st.log]
+        ai = [i for i, x in enumerate(st.log) if x[0] == 'add_info']
+        ts = [i for i, x in enumerate(st.log) if x[0] == 'to_strings']
+        e.prove('C13/circ-write/circRNA-reported-to-the-metadata-once-before-its-lines-are-asked-for',
+                len(ai) == 1 and len(ts) == 1 and st.log[ai[0]][2] == 'circRNA' and ai[0] < ts[0])
+        hdr = [i for i, x in enumerate(st.log) if x[0] == 'write' and x[1] == 'out' and isinstance(x[2], str)]
+        e.prove('C13/circ-write/one-column-header-line-starting-with-#-after-the-metadata-request',
+                len(hdr) == 1 and st.log[hdr[0]][2].startswith('#') and st.log[hdr[0]][2].endswith('\n') and st.log[hdr[0]][2].count('\n') == 1 and (not ts or ts[0] < hdr[0]))
